@@ -644,6 +644,7 @@ def execute(case):
     case["rep"] = []
     case["clk"] = {"has": False, "now": 0, "R": {"out": "", "start": [], "end": [], "rows": [], "sameRows": False}}
     case["solo"] = {"has": False, "t": 0, "out": "", "start": 0, "end": 0}
+    case["chain"] = {"out": "none", "start": [], "end": [], "est": [], "spent": [], "wstart": MISSING, "wend": MISSING}
     case["schedulable"] = schedulable_hint(I)
     case["lo"], case["hi"] = I["pstart"] // DAY - 3, I["pstart"] // DAY + 3
     if out != "ok":
@@ -746,6 +747,14 @@ def execute(case):
     s8 = make_scheduler(I, robjs2)
     o8, sc8 = guarded(lambda: s8.calc(w))
     case["rep"].append(slim(o8, sc8))
+    # (6) the schedule of the schedule: the result of the first calc (every task dated, whatever else the first
+    # calc left on the copies) is scheduled again by a fresh scheduler; C07 speaks about this result as about any other
+    o9, sc9 = guarded(lambda: make_scheduler(I).calc(sc.schedule))
+    if o9 == "ok":
+        r9 = extract(I, sc9, numbers)
+        case["chain"] = {k: r9[k] for k in ("out", "start", "end", "est", "spent", "wstart", "wend")}
+    else:
+        case["chain"]["out"] = o9
     # another clock value at or before the project start
     fends = [t["fend"] for t in I["tasks"] if t["fend"] != MISSING]
     now2 = I["now"] - 3 * DAY - 417 if case["id"] % 2 else I["pstart"]
